@@ -584,6 +584,22 @@ def r3_frames(chk):
                "the list constructor of ConformerEnsemble does not take the coordinates of the given structures in list order")
 
 
+def two_d_outer(x):
+    """the expression carries an explicit (.., 3) / two-element shape"""
+    if isinstance(x, ast.Call):
+        cn = call_name(x) or ""
+        tail = cn.split(".")[-1] if cn else (x.func.attr if isinstance(x.func, ast.Attribute) else "")
+        if tail == "reshape":
+            shape = x.args[1:] if cn in ("np.reshape", "numpy.reshape") else x.args
+            flat = [y for a_ in shape for y in (a_.elts if isinstance(a_, ast.Tuple) else [a_])]
+            return len(flat) == 2 and norm(flat[-1]) == "3"
+        if tail in ("empty", "zeros", "full", "ones") and x.args and isinstance(x.args[0], ast.Tuple) and len(x.args[0].elts) == 2:
+            return True
+        if tail in ("array", "asarray", "ascontiguousarray") and x.args:
+            return two_d_outer(x.args[0])
+    return False
+
+
 def r5_empty_shape(chk):
     """0 atoms is a geometry too (the property quantifies over 0..n atoms).  The coordinates read from an xyz block go into an (n, 3)
     array by broadcasting assignment; a plain list of rows has its row width only through its elements, so the empty list is a (0,)
@@ -603,6 +619,10 @@ def r5_empty_shape(chk):
         e = env.expand(val, at=node)
         # a property of the parsed block: look at what it returns
         shown = norm(e)
+        outer = e
+        from ..util import strip_shape_wrappers
+
+        e = strip_shape_wrappers(e) if not two_d_outer(outer) else e
         if isinstance(e, ast.Attribute) and isinstance(e.value, ast.Name):
             mem = blk.members.get(e.attr)
             if mem is not None and mem.getter is not None:
@@ -614,7 +634,7 @@ def r5_empty_shape(chk):
         def two_d(x):
             if isinstance(x, ast.Call):
                 cn = call_name(x) or ""
-                tail = cn.split(".")[-1]
+                tail = cn.split(".")[-1] if cn else (x.func.attr if isinstance(x.func, ast.Attribute) else "")
                 if tail == "reshape":
                     shape = x.args[1:] if cn in ("np.reshape", "numpy.reshape") else x.args
                     flat = [y for a_ in shape for y in (a_.elts if isinstance(a_, ast.Tuple) else [a_])]
